@@ -41,7 +41,7 @@ def run(ctx):
         if ft == 'input_file.readline':
             return ['KeyboardInterrupt']
         return ()
-    paths = paths_of(repo, f_pa, may_raise=mr, while_unroll=1)
+    paths = paths_of(repo, f_pa, may_raise=mr, while_unroll=2 if ctx.tier == 'thorough' else 1)
     ctx.floor('C08.1', len(paths), 6, 'paths of parse_all')
 
     # ---- C08.1 -----------------------------------------------------------------------------------------------
